@@ -26,12 +26,13 @@ chk("C10","exploration","store.Handler served through a simulated service over m
 chk("C13","exploration","Index queries raced against the real index worker on real BadgerDB: mutators are frozen at transaction boundaries, the worker stays schedulable, Flush()+Query results are compared with an exact reference scan for generated prefixes, filters, windows and directions.",base_note+" BadgerDB is trusted for atomic commit; its internal goroutines are quiescence-controlled, not tape-controlled.",tech,"5/C13")
 chk("C14","exploration","Query-change callbacks recorded on the index worker: count and per-id order against the mutation log, index-reflects-mutation-first by querying inside the callback, and soundness of the affected predicate against reference results before/after each update; plus (handler layer) a reference client holding query results through store.QueryHandler.",base_note,tech,"5/C14")
 chk("C12","fault_enumeration","Crash images of the real BadgerDB directory taken at occurrences of the instrumented kill points (before/inside/after each commit, inside Init, around each index task, after the rebuild drop; sampled in the quick tier, every occurrence in the thorough tier), plus torn-tail variants and dirty-restart generations; each image is reopened and checked against the acked model, then the restart procedure (Init, RebuildIndexes) is run on it and checked.",base_note+" Loss of acknowledged-but-unsynced data and kernel-level disk errors are not simulated (no VFS seam in BadgerDB v1.6.2); BadgerDB's own recovery is trusted to be what a real restart runs, since it is the real code.",tech+"; crash-point enumeration with crash images","5/C12")
+chk("C15","exploration","Query events under tape-chosen timing of query requests relative to expiry on the simulated clock (inside the window, held by the listener or buffered in the channel when the timer fires, after the drain), channel overflow, subscription failure and every callback behaviour; response count and kind per request, nil-once-and-last, group occupancy, and a goroutine-stack scan for leaked listeners after shutdown.",base_note+" Tier A emulates the server-side effect of Subscription.Drain at the instrumented point directly after the call.",tech,"5/C15")
 na=[
  {"property_id":"C06","reason":"Mux.GetHandler is a pure function of (pattern set, name): no schedule, clock, fault or multi-party history for a simulator to range over; routing is exercised by C01/C05 whose reference matcher would disagree, but the for-all over pattern sets is not claimed."},
  {"property_id":"C17","reason":"Pure string functions of (pattern, name, tag map); nothing concurrent, timed or faulty to simulate."},
  {"property_id":"C18","reason":"Pure marshal/unmarshal round trips; the one multi-party clause (client package parsing service responses) is incidentally exercised by C05's peer but is not a simulation decision."},
 ]
-pending=["C15","C16","C19","C20"]
+pending=["C16","C19","C20"]
 for p in pending:
     na.append({"property_id":p,"reason":"check not built yet in this revision of /verif (planned in DESIGN.md section 5); not claimed until its scenario and oracle exist"})
 m={"version":1,
